@@ -115,7 +115,7 @@ pub struct ThreadOutcome {
 
 /// (b)+(c): ports of one instance driven from separate threads, a BMCA thread doing the daemon's
 /// stop-the-world hand-over through channels, observer threads reading the data sets.
-pub fn threaded(seed: u64, n_ports: usize, n_observers: usize, ops_per_port: u64, yield_every: u64) -> ThreadOutcome {
+pub fn threaded(seed: u64, n_ports: usize, n_observers: usize, ops_per_port: u64, yield_every: u64, max_wall: std::time::Duration) -> ThreadOutcome {
     let own_tp = statime::config::TimePropertiesDS::new_ptp_time(Some(-7), LeapIndicator::NoLeap, true, false, statime::config::TimeSource::Gnss);
     let mut b = Build::new(0x50);
     b.n_ports = n_ports;
@@ -347,10 +347,16 @@ pub fn threaded(seed: u64, n_ports: usize, n_observers: usize, ops_per_port: u64
     let mut watchdog = false;
     let mut last = 0u64;
     let mut last_change = std::time::Instant::now();
+    let started = std::time::Instant::now();
     loop {
         std::thread::sleep(std::time::Duration::from_millis(20));
         let done = writer_ops.load(Ordering::Relaxed) >= ops_per_port * n_ports as u64;
         if done || stop.load(Ordering::Relaxed) {
+            break;
+        }
+        // the quota is an upper bound, not an obligation: on a loaded machine the run ends after its
+        // wall-time share with whatever it observed (counted in the evidence)
+        if started.elapsed() >= max_wall {
             break;
         }
         let p = progress.load(Ordering::Relaxed);
@@ -574,7 +580,8 @@ pub fn run(rep: &mut Report, tier: &str, seed: u64, shard: (u32, u32), _replay: 
     for r in 0..runs {
         let n_ports = 2 + (r % 2) as usize;
         let n_obs = if miri { 1 } else { 2 + (r % 3) as usize };
-        let o = threaded(seed.wrapping_add(r as u64 * 101), n_ports, n_obs, ops, [0u64, 1, 7, 64][(r % 4) as usize]);
+        let max_wall = std::time::Duration::from_millis(if miri { 3_600_000 } else if thorough { 12_000 } else { 2_500 });
+        let o = threaded(seed.wrapping_add(r as u64 * 101), n_ports, n_obs, ops, [0u64, 1, 7, 64][(r % 4) as usize], max_wall);
         rep.ev("threaded_runs");
         rep.evn("snapshots_checked", o.snapshots);
         rep.evn("distinct_versions_seen", o.distinct_k);
